@@ -1,6 +1,8 @@
 // C17 conformance driver: exercises nano::parallel::pool_t under randomized schedules and records one event per
 // specification action (hooks inside the pool mutex + the driver's own operator/caller events), ordered by the
-// sequence number taken at the hook; big map() calls are recorded as (chunk, worker id, interval) lists.
+// sequence number taken at the hook; big map() calls are recorded as (chunk, worker id, interval) lists (also on pools whose size the
+// library chooses: pool_t(), pool_t(0), pool_t(max_size() + 5)); the futures of raw enqueue()d tasks (completing, throwing, still queued
+// when the pool is destroyed) are asked while the pool is alive or looked at after its destruction.
 //
 // usage: pool_driver <out.ndjson> <seed> <small-cases> <big-cases> [maxevents]
 #include "trace.h"
@@ -8,6 +10,8 @@
 #include <atomic>
 #include <chrono>
 #include <cstring>
+#include <future>
+#include <memory>
 #include <nano/core/parallel.h>
 #include <stdexcept>
 #include <thread>
@@ -103,6 +107,11 @@ void flush_events(bool complete)
         {
             j.i("c", ev.v[0]).i("k", ev.v[1]);
         }
+        else if (is("Future"))
+        {
+            static const char* const outcomes[] = {"ok", "threw", "broken", "pending", "other"};
+            j.i("c", ev.v[0]).i("k", ev.v[1]).s("outcome", outcomes[std::clamp<int64_t>(ev.v[2], 0, 4)]).b("alive", ev.v[3] != 0);
+        }
         else
         {
             j.i("a", ev.v[0]).i("b", ev.v[1]).i("tid", ev.tid);
@@ -144,7 +153,37 @@ struct call_t
     int64_t chunk{1};
     bool    raise{true};
     int     throw_permille{0};
+    int     future{0};     // enqueue: 0 = the future is discarded, 1 = get() at once (the pool is alive), 2 = looked at after the pool is destroyed
+    bool    throws{false}; // enqueue: the raw task throws
+    bool    slow{false};   // enqueue: the raw task takes a while (the tasks behind it are still queued when the pool is destroyed)
 };
+
+// what the future of a raw task delivers: 0 = completed, 1 = the task's exception, 2 = broken promise (the task was destroyed without having
+// run), 3 = not ready (only asked after the destruction of the pool, where nothing can make it ready any more: never waits), 4 = another exception
+int64_t future_outcome(parallel::future_t& future, const bool may_block)
+{
+    if (!may_block && future.wait_for(std::chrono::seconds(0)) != std::future_status::ready)
+    {
+        return 3;
+    }
+    try
+    {
+        future.get();
+        return 0;
+    }
+    catch (const std::runtime_error&)
+    {
+        return 1;
+    }
+    catch (const std::future_error& e)
+    {
+        return e.code() == std::future_errc::broken_promise ? 2 : 4;
+    }
+    catch (...)
+    {
+        return 4;
+    }
+}
 
 void small_case(vt::Rng& rng, int64_t icase)
 {
@@ -175,7 +214,10 @@ void small_case(vt::Rng& rng, int64_t icase)
             for (int64_t k = 0, m = rng.range(1, 4); k < m; ++k)
             {
                 call_t call;
-                call.kind = 2;
+                call.kind   = 2;
+                call.future = static_cast<int>(rng.range(0, 2));
+                call.throws = rng.coin(1, 3);
+                call.slow   = rng.coin(1, 4);
                 plan.push_back(call);
             }
         }
@@ -187,6 +229,13 @@ void small_case(vt::Rng& rng, int64_t icase)
     g_case_started_ms.store(now_ms());
 
     vt::put(vt::J("Reset").i("workers", nw).i("callers", ncallers).i("case", icase).i("sched", sched));
+    struct kept_t
+    {
+        int64_t            c, k;
+        parallel::future_t future;
+    };
+    std::vector<kept_t> kept;
+    std::mutex          kept_mutex;
     {
         parallel::pool_t pool(static_cast<size_t>(nw));
 
@@ -205,13 +254,32 @@ void small_case(vt::Rng& rng, int64_t icase)
                         if (call.kind == 2)
                         {
                             emit("EnqCall", {c, k});
-                            pool.enqueue(
-                                [c, k](const size_t tnum)
+                            auto future = pool.enqueue(
+                                [c, k, throws = call.throws, slow = call.slow](const size_t tnum)
                                 {
                                     emit("Begin", {c, k, -1, -1, static_cast<int64_t>(tnum), 0});
                                     NANO_VERIF_YIELD(30);
-                                    emit("End", {c, k, -1, -1, static_cast<int64_t>(tnum), 0, 0});
+                                    if (slow)
+                                    {
+                                        std::this_thread::sleep_for(std::chrono::microseconds(300));
+                                    }
+                                    emit("End", {c, k, -1, -1, static_cast<int64_t>(tnum), 0, throws ? 1 : 0});
+                                    if (throws)
+                                    {
+                                        throw std::runtime_error("raw task failure");
+                                    }
                                 });
+                            if (call.future == 1)
+                            {
+                                // the pool is alive: the task runs sooner or later, get() returns or delivers the task's exception
+                                const auto outcome = future_outcome(future, true);
+                                emit("Future", {c, k, outcome, 1});
+                            }
+                            else if (call.future == 2)
+                            {
+                                const std::scoped_lock lock(kept_mutex);
+                                kept.push_back(kept_t{c, k, std::move(future)});
+                            }
                             continue;
                         }
                         // the decision which tasks throw is taken up-front (deterministic per case)
@@ -266,6 +334,12 @@ void small_case(vt::Rng& rng, int64_t icase)
         }
     }
     emit("Destroyed", {});
+    // the futures of raw tasks after the destruction of the pool: a task that ran delivers its completion / its exception; a task that was
+    // still queued never ran (the future is then broken or never becomes ready: it is not waited for)
+    for (auto& keep : kept)
+    {
+        emit("Future", {keep.c, keep.k, future_outcome(keep.future, false), 0});
+    }
     g_case_started_ms.store(0);
     verif::set_sched(-1);
     flush_events(true);
@@ -290,6 +364,7 @@ void race_case(vt::Rng& rng, int64_t icase)
     g_case.store(icase);
     g_case_started_ms.store(now_ms());
     vt::put(vt::J("Reset").i("workers", nw).i("callers", 1).i("case", icase).i("sched", sched));
+    std::vector<parallel::future_t> futures;
     {
         parallel::pool_t     pool(static_cast<size_t>(nw));
         std::atomic<int64_t> finished{0};
@@ -297,13 +372,13 @@ void race_case(vt::Rng& rng, int64_t icase)
         for (int64_t k = 1; k <= ntasks; ++k)
         {
             emit("EnqCall", {0, k});
-            pool.enqueue(
+            futures.push_back(pool.enqueue(
                 [k, &finished](const size_t tnum)
                 {
                     emit("Begin", {0, k, -1, -1, static_cast<int64_t>(tnum), 0});
                     emit("End", {0, k, -1, -1, static_cast<int64_t>(tnum), 0, 0});
                     finished.fetch_add(1);
-                });
+                }));
         }
         while (finished.load() < ntasks)
         {
@@ -313,6 +388,10 @@ void race_case(vt::Rng& rng, int64_t icase)
         }
     }
     emit("Destroyed", {});
+    for (size_t k = 0; k < futures.size(); ++k)
+    {
+        emit("Future", {0, static_cast<int64_t>(k) + 1, future_outcome(futures[k], false), 0});
+    }
     g_case_started_ms.store(0);
     verif::set_sched(-1);
     flush_events(true);
@@ -327,10 +406,11 @@ struct rec_t
     int64_t b, e, tnum, sb, se;
 };
 
-void big_case(vt::Rng& rng, int64_t icase)
+// ctor: -1 = pool_t(size within [1, max_size()]), 0 = pool_t(), 1 = pool_t(0), 2 = pool_t(max_size() + 5): the library chooses the size
+void big_case(vt::Rng& rng, int64_t icase, const int ctor = -1)
 {
     const auto hw       = static_cast<int64_t>(parallel::pool_t::max_size());
-    const auto nw       = std::clamp<int64_t>(rng.range(1, 16), 1, hw);
+    auto       nw       = std::clamp<int64_t>(rng.range(1, 16), 1, hw);
     const auto ncallers = rng.range(1, 4);
     const auto sched    = rng.coin(1, 2) ? rng.range(0, 1 << 20) : -1;
 
@@ -360,7 +440,22 @@ void big_case(vt::Rng& rng, int64_t icase)
         out.tseed    = static_cast<uint64_t>(rng.range(0, 1 << 30));
     }
     {
-        parallel::pool_t pool(static_cast<size_t>(nw));
+        const auto requested = ctor == 1 ? int64_t{0} : ctor == 2 ? hw + 5 : nw;
+        const auto ppool     = ctor == 0 ? std::make_unique<parallel::pool_t>() : std::make_unique<parallel::pool_t>(static_cast<size_t>(requested));
+        auto&      pool      = *ppool;
+        if (ctor >= 0)
+        {
+            // the size the library chose is the pool size of the records below (worker ids below it, inline path iff it is one)
+            nw = static_cast<int64_t>(pool.size());
+            vt::put(vt::J("PoolSize").i("requested", ctor == 0 ? -1 : requested).i("size", nw).i("maxsize", hw));
+            if (nw > 1)
+            {
+                // at least one call on the pooled path: a pool without workers never returns from it (the watchdog reports the hang)
+                outs[0].kind  = 1;
+                outs[0].n     = std::max<int64_t>(outs[0].n, 40);
+                outs[0].chunk = std::clamp<int64_t>(outs[0].chunk, 1, outs[0].n / 2);
+            }
+        }
         std::vector<std::thread> threads;
         for (int64_t c = 0; c < ncallers; ++c)
         {
@@ -477,6 +572,11 @@ int main(int argc, char* argv[])
     for (int64_t i = 0; i < nbig; ++i)
     {
         big_case(rng, nsmall + i);
+    }
+    // pool sizes chosen by the library: default constructed, clamped from below and from above
+    for (int ctor = 0; ctor < 3; ++ctor)
+    {
+        big_case(rng, nsmall + nbig + ctor, ctor);
     }
     return 0;
 }
